@@ -114,6 +114,7 @@ func runC20(t *testing.T, cases []map[string]interface{}, ev *vEvents) {
 	tapped := map[string]bool{}
 	unpublished, tapChecked := 0, 0
 	unpublishedPaths := []string{}
+	holdTap := false // during a burst the tap is left alone: what it holds is looked at afterwards
 	issue := func(path string) time.Duration {
 		var q vReq
 		switch path {
@@ -137,7 +138,7 @@ func runC20(t *testing.T, cases []map[string]interface{}, ev *vEvents) {
 		t0 := time.Now()
 		r := w.Do(q)
 	drain:
-		for {
+		for !holdTap {
 			select {
 			case e := <-tap:
 				tapped[string(e.CertData)] = true
@@ -149,6 +150,9 @@ func runC20(t *testing.T, cases []map[string]interface{}, ev *vEvents) {
 		info := w.parseIssued(r.Body)
 		if info.Kind != "none" {
 			issued = append(issued, issuedT{info.Raw, time.Now()})
+			if holdTap {
+				return d
+			}
 			tapChecked++
 			if !tapped[string(info.Raw)] {
 				unpublished++
@@ -166,6 +170,38 @@ func runC20(t *testing.T, cases []map[string]interface{}, ev *vEvents) {
 		}
 	}
 	runtime.GOMAXPROCS(procs)
+	// a burst: certificates signed back to back while nobody takes events off the queue; afterwards the queue must hold
+	// each certificate's own bytes, in order (an event is a value, not a view of a buffer that is used again)
+	time.Sleep(50 * time.Millisecond)
+	for len(tap) > 0 {
+		<-tap
+	}
+	burstStart := len(issued)
+	holdTap = true
+	for k := 0; k < 12; k++ {
+		issue(paths[k%3])
+	}
+	holdTap = false
+	burstMismatch := 0
+	var burstGot [][]byte
+collect:
+	for {
+		select {
+		case e := <-tap:
+			if e.Type == eventmon.EventTypeSSHCert || e.Type == eventmon.EventTypeX509Cert {
+				burstGot = append(burstGot, append([]byte{}, e.CertData...))
+			}
+		default:
+			break collect
+		}
+	}
+	for k := burstStart; k < len(issued); k++ {
+		if k-burstStart >= len(burstGot) || !bytes.Equal(burstGot[k-burstStart], issued[k].bytes) {
+			burstMismatch++
+		}
+	}
+	burstN := len(issued) - burstStart
+	time.Sleep(100 * time.Millisecond) // the draining subscriber catches up (12 < 16 events were queued)
 	// login events
 	wantLogins := 0
 	htmlH := map[string]string{"Accept": "text/html"}
@@ -250,5 +286,5 @@ func runC20(t *testing.T, cases []map[string]interface{}, ev *vEvents) {
 	}
 	ev.Emit(map[string]interface{}{"i": 0, "ev": "Stream", "responded": resp, "fast": fastIDs, "maxIssueMsWithStalledSubscriber": int(maxIssue / time.Millisecond),
 		"floodMs": floodMs, "loginsMissing": missing, "loginEvents": gotLogins, "lateEvents": late, "paths": paths, "rounds": rounds,
-		"unpublishedAtResponse": unpublished, "unpublishedPaths": unpublishedPaths, "publishedAtResponseChecked": tapChecked})
+		"burst": burstN, "burstMismatch": burstMismatch, "unpublishedAtResponse": unpublished, "unpublishedPaths": unpublishedPaths, "publishedAtResponseChecked": tapChecked})
 }
